@@ -356,7 +356,10 @@ def model(plan, now):
     if cred['kind'] == 'plain':
         return cred['key'] in trusted and cred['key'] not in revoked, info
 
+    # (a revoked key is not a key the trust configuration accepts, whether
+    # it is presented bare or inside a certificate)
     ok = cred['ca'] in cas and cred['ca'] not in revoked and \
+        cred['key'] not in revoked and \
         cred['type'] == 'host' and not cred['corrupt'] and \
         (not cred['principals'] or host in cred['principals'])
     after, before = cred['after'], cred['before']
